@@ -55,8 +55,10 @@ class Tr:
         txt, ty = e
         if ty == want:
             return txt
-        if ty == "Z" and want == "Q":
+        if ty in ("Z", "QZ") and want == "Q":
             return f"(inject_Z {txt})"
+        if ty == "B" and want == "Q":
+            return f"(b2q {txt})"
         if ty == "Q" and want == "EXT":
             return f"(Fin {txt})"
         raise Reject(f"type mismatch: have {ty}, want {want} in {txt}")
@@ -109,9 +111,9 @@ class Tr:
                 sym = {ast.Add: "+", ast.Sub: "-", ast.Mult: "*"}[op]
                 if a[1] == "Z" and b[1] == "Z":
                     return (f"({a[0]} {sym} {b[0]})%Z", "Z")
-                if {a[1], b[1]} <= {"Z", "Q"}:
+                if {a[1], b[1]} <= {"Z", "Q", "QZ"}:
                     return (f"({self.coerce(a, 'Q')} {sym} {self.coerce(b, 'Q')})", "Q")
-            if op is ast.Div and {a[1], b[1]} <= {"Z", "Q"}:
+            if op is ast.Div and {a[1], b[1]} <= {"Z", "Q", "QZ"}:
                 return (f"({self.coerce(a, 'Q')} / {self.coerce(b, 'Q')})", "Q")
             raise Reject(f"binop {op.__name__} on {a[1]},{b[1]}")
         if isinstance(e, ast.Compare) and len(e.ops) == 1:
@@ -126,7 +128,7 @@ class Tr:
                 if fn is None:
                     return (f"(negb (Z.eqb {a[0]} {b[0]}))", "B")
                 return (f"({fn} {a[0]} {b[0]})", "B")
-            if {a[1], b[1]} <= {"Z", "Q"}:
+            if {a[1], b[1]} <= {"Z", "Q", "QZ"}:
                 x, y = self.coerce(a, "Q"), self.coerce(b, "Q")
                 m = {ast.Lt: f"(Qltb {x} {y})", ast.LtE: f"(Qleb {x} {y})", ast.Gt: f"(Qltb {y} {x})",
                      ast.GtE: f"(Qleb {y} {x})", ast.Eq: f"(Qeqb {x} {y})", ast.NotEq: f"(negb (Qeqb {x} {y}))"}
@@ -139,7 +141,7 @@ class Tr:
         if isinstance(e, ast.IfExp):
             c = self.coerce(self.expr(e.test), "B")
             a, b = self.expr(e.body), self.expr(e.orelse)
-            ty = a[1] if a[1] == b[1] else ("Q" if {a[1], b[1]} <= {"Z", "Q"} else None)
+            ty = a[1] if a[1] == b[1] else ("Q" if {a[1], b[1]} <= {"Z", "Q", "QZ"} else None)
             if ty is None:
                 raise Reject("ifexp branches of different types")
             return (f"(if {c} then {self.coerce(a, ty)} else {self.coerce(b, ty)})", ty)
@@ -173,10 +175,14 @@ class Tr:
                         names.append(t.id)
                     elif isinstance(t, ast.Tuple) and all(isinstance(x, ast.Name) for x in t.elts):
                         names += [x.id for x in t.elts]
+                    elif isinstance(t, ast.Subscript) and isinstance(t.value, ast.Name):
+                        names.append(t.value.id)
                     else:
                         raise Reject("assignment target in branch")
             elif isinstance(s, ast.AugAssign) and isinstance(s.target, ast.Name):
                 names.append(s.target.id)
+            elif isinstance(s, ast.If):
+                names += self.assigned_names(s.body) + self.assigned_names(s.orelse)
             else:
                 raise Reject("statement in branch: " + type(s).__name__)
         out = []
@@ -185,21 +191,51 @@ class Tr:
                 out.append(n)
         return out
 
+    def let_chain(self, stmts):
+        """translate assignment-only statements (nested ifs allowed) to 'let … in ' text; updates env"""
+        txt = ""
+        for s in stmts:
+            special = self.special_stmt(s)
+            if special is not None:
+                txt += special + (" " if special else "")
+                continue
+            if isinstance(s, ast.If):
+                txt += self.if_let(s)
+                continue
+            for n, v in self.simple_stmt(s):
+                txt += f"let {n} := {v} in "
+        return txt
+
+    def if_let(self, s):
+        c = self.coerce(self.expr(s.test), "B")
+        names = self.assigned_names(s.body)
+        for n in self.assigned_names(s.orelse):
+            if n not in names:
+                names.append(n)
+        nb, no = self.assigned_names(s.body), self.assigned_names(s.orelse)
+        # names assigned on one path only and unknown before are branch-local: not exported
+        names = [n for n in names if n in self.env or (n in nb and n in no)]
+        a, tys = self.branch_value(s.body, names)
+        b, tys2 = self.branch_value(s.orelse, names)
+        if tys != tys2:
+            raise Reject(f"branches give different types {tys} vs {tys2}")
+        for n, ty in zip(names, tys):
+            self.env[n] = (n, ty)
+        pat = names[0] if len(names) == 1 else "'(" + ", ".join(names) + ")"
+        return f"let {pat} := if {c} then {a} else {b} in\n  "
+
     def branch_value(self, stmts, names):
         """translate a branch that only assigns; returns tuple text of the final values of names"""
         saved = dict(self.env)
-        lets = []
-        for s in stmts:
-            lets += self.simple_stmt(s)
+        txt = self.let_chain(stmts)
         vals = []
         tys = []
         for n in names:
             if n not in self.env:
                 raise Reject(f"{n} not defined on every path")
-            vals.append(n if any(l[0] == n for l in lets) else self.env[n][0])
+            vals.append(self.env[n][0])
             tys.append(self.env[n][1])
         self.env = saved
-        txt = "".join(f"let {n} := {v} in " for n, v in lets)
         tup = vals[0] if len(vals) == 1 else "(" + ", ".join(vals) + ")"
         return f"({txt}{tup})", tys
 
@@ -235,6 +271,11 @@ class Tr:
             return self.ret_wrap(self, v) if self.ret_wrap else v[0]
         if isinstance(s, ast.Raise):
             return "Raise"
+        special = self.special_stmt(s)
+        if special is not None:
+            if special == "":
+                return self.block(rest)
+            return f"({special}\n  {self.block(rest)})"
         if isinstance(s, ast.If):
             c = self.coerce(self.expr(s.test), "B")
             # guard: if cond: raise
@@ -248,24 +289,7 @@ class Tr:
                 b = self.block(orelse + ([] if orelse and isinstance(orelse[-1], (ast.Return, ast.Raise)) else rest))
                 self.env = saved
                 return f"(if {c} then {a} else {b})"
-            names = self.assigned_names(s.body)
-            for n in self.assigned_names(s.orelse):
-                if n not in names:
-                    names.append(n)
-            a, tys = self.branch_value(s.body, names)
-            b, tys2 = self.branch_value(s.orelse, names)
-            if tys != tys2:
-                # allow Z/Q mixing by coercing both branches is not supported in branches
-                raise Reject(f"branches give different types {tys} vs {tys2}")
-            for n, ty in zip(names, tys):
-                self.env[n] = (n, ty)
-            pat = names[0] if len(names) == 1 else "'(" + ", ".join(names) + ")"
-            return f"(let {pat} := if {c} then {a} else {b} in\n  {self.block(rest)})"
-        special = self.special_stmt(s)
-        if special is not None:
-            if special == "":
-                return self.block(rest)
-            return f"({special}\n  {self.block(rest)})"
+            return f"({self.if_let(s)}{self.block(rest)})"
         lets = self.simple_stmt(s)
         txt = "".join(f"let {n} := {v} in\n  " for n, v in lets)
         return f"({txt}{self.block(rest)})"
